@@ -13,7 +13,7 @@
    * an int result r is read as [vres_of (Some r)]: 0 is VOk, anything else VErr r; None (a read outside [b]) is VOob.
    * C `int required` is any int; the model's bool is [negb (required =? 0)].
    * `uint16_t align` is a power of two up to 32768 ([pow2_16]): the C masks with (align - 1u), the model uses mod. *)
-From Flatcc.Verifier Require Import VerifierModel.
+From Flatcc.Verifier Require Export VerifierModel LeafTac.
 From Flatcc.Generated Require Import Leaf_verifier.
 Local Open Scope Z_scope.
 
@@ -26,16 +26,8 @@ Definition td_of (b : buf) (addr : Z) (d : td) : c_td :=
      td_vtable := ptr_of b addr (t_o d + t_vtable d);
      td_table := t_table d; td_tsize := t_tsize d; td_vsize := t_vsize d |}.
 
-Definition vres_of (r : option Z) : vres :=
-  match r with None => VOob | Some c => if c =? 0 then VOk else VErr c end.
-
-Definition pow2_16 (a : Z) : Prop :=
-  In a [1; 2; 4; 8; 16; 32; 64; 128; 256; 512; 1024; 2048; 4096; 8192; 16384; 32768].
-
 Definition td_range (d : td) : Prop :=
   in_u32 (t_end d) /\ in_u32 (t_table d) /\ in_u16 (t_tsize d) /\ in_u16 (t_vsize d).
-
-Definition in_s32 (x : Z) : Prop := -2147483648 <= x < 2147483648.
 
 (* ------------------------------------------------------------------------------------------------------------
    Search (used by checks/c01c_util.py when LeafEquiv.v no longer checks): results are coded as integers,
